@@ -85,6 +85,14 @@ def generate(streams: core.Streams, tier: str) -> dict:
         victim = gen.pick(w, corr)
         victim["correlation"]["rules"] = list(victim["correlation"]["rules"]) + ["no_such_rule"]
         dangling = victim["title"]
+    if gen.chance(w, 0.06):
+        # nobody in the set carries a name or id; one correlation rule refers to a rule that is not there
+        for d in docs:
+            d.pop("id", None)
+            d.pop("name", None)
+        corr = [gen.gen_correlation(w, "C0", ["no_such_rule"], generate=False)]
+        corr[0]["_refs"] = []
+        dangling = "C0"
     all_docs = docs + corr
     n = len(all_docs)
     # schedule of (permutation, delivery)
